@@ -9,7 +9,7 @@ import vlib
 
 
 def gen(module, consts, invariants, tag, workers=8, timeout=900, simulate=None, depth=None, seed=None, xmx="8g",
-        defs=None, spec="Spec", properties=()):
+        defs=None, spec="Spec", properties=(), deadlock=False):
     """Run TLC on spec/<module>.tla with the given constants (defs: constant -> TLA+ expression,
     substituted through a wrapper module); returns (behaviours, TlcResult)."""
     d = vlib.spec_workdir("gen_" + tag, [module + ".tla"])
@@ -28,7 +28,7 @@ def gen(module, consts, invariants, tag, workers=8, timeout=900, simulate=None, 
     lines.append("INVARIANTS " + " ".join(invariants))
     if properties:
         lines.append("PROPERTIES " + " ".join(properties))
-    lines.append("CHECK_DEADLOCK FALSE")
+    lines.append("CHECK_DEADLOCK %s" % ("TRUE" if deadlock else "FALSE"))
     with open(os.path.join(d, "G.cfg"), "w") as f:
         f.write("\n".join(lines) + "\n")
     extra = []
